@@ -10,6 +10,10 @@ the input untouched and the in-place ones overwrite it'): the result of an out-o
 place / written to and the input must keep its values (and the other way round), the input is modified in place
 and the call repeated, in-place calls on views must leave the rest of the buffer alone.  Every dimension is
 addressed by its non-negative and by its negative index, through every public call form.
+
+The statement holds 'for every input': every family of cases is also run in every autograd state a caller can
+be in (AGS below: leaf / non-leaf inputs that require grad with grad mode on, torch.no_grad(), torch.inference_mode();
+float64 instead of int64 items), every length L in each of them, judged by the same oracle and tied to the same model.
 """
 import itertools
 from ..common import *
@@ -18,7 +22,8 @@ RULE = ('plain tensors: every L in the tier range (exhaustive for the index sche
         'items; a case is non-trivial when L >= 2; distinct = distinct (variant, shape, dim, order); '
         'LieTensor cases: Q8 x integer translations x power-of-two scales on batch shapes of rank 1..3, every batch '
         'dim by its non-negative and negative index, distinct (type, batch shape, dim, order, call, items); '
-        'each case is a history: call, then in-place scan of / writes to the result, then the call repeated on the modified input')
+        'each case is a history: call, then in-place scan of / writes to the result, then the call repeated on the modified input; '
+        'every family in every autograd state (no grad / leaf / non-leaf requiring grad / no_grad / inference_mode), every L in each state')
 
 
 def seg_ops(torch, order='right'):
@@ -88,6 +93,38 @@ LAYOUTS = {'C': 'contiguous', 'T': 'non-contiguous (permuted view)', 'S': 'strid
            'P': 'interior view of a padded buffer', 'E': 'expanded (stride 0) along a non-scan dimension'}
 
 
+# autograd states of a call: the property is stated for every input, whatever graph it belongs to and whatever the
+# ambient grad mode is
+AGS = {'off': None,
+       'leaf': 'x is a leaf with requires_grad=True, grad mode on',
+       'nonleaf': 'x is a non-leaf result (requires grad) of a graph, grad mode on',
+       'nograd': 'x requires grad, call inside torch.no_grad()',
+       'inference': 'x created and call made inside torch.inference_mode()'}
+AG_OUT = ['off', 'leaf', 'nonleaf', 'nograd', 'inference']
+AG_IN = ['off', 'nonleaf', 'nograd', 'inference']     # torch itself refuses in-place writes to a leaf that requires grad
+
+
+def ag_context(torch, ag):
+    if ag == 'nograd':
+        return torch.no_grad()
+    if ag == 'inference':
+        return torch.inference_mode()
+    return torch.enable_grad()
+
+
+def ag_buffer(torch, buf, ag):
+    """the (fresh, floating point) buffer put into the autograd state `ag`; call inside ag_context"""
+    if ag in ('leaf', 'nograd'):
+        return buf.requires_grad_(True)
+    if ag == 'nonleaf':
+        return buf.requires_grad_(True).clone()
+    return buf
+
+
+def ag_text(ag):
+    return ' [%s]' % AGS[ag] if AGS.get(ag) else ''
+
+
 def deviations(t, base, dim, left=False):
     """per fibre: list of (i, first, last) where the output differs from [base, base+i]"""
     import torch
@@ -127,10 +164,12 @@ def plain_exec(pp, torch, c, history=True):
     an expanded view of the input) turned into a reported failure of that input"""
     res = dict(devs=None, same_in=None, same_res=None, fail=None)
     try:
-        return plain_exec_(pp, torch, c, history, res)
+        with ag_context(torch, c.get('ag', 'off')):
+            return plain_exec_(pp, torch, c, history, res)
     except Exception as e:
-        res['fail'] = res['fail'] or (KEY_HIST, 'a step of the history around %s(x, %d, ops) on a %s tensor raises %s: %s'
-                                      % (c.get('variant', 'cumops'), c['dim'], LAYOUTS[c.get('layout', 'C')], type(e).__name__, str(e)[:200]))
+        res['fail'] = res['fail'] or (KEY_HIST, 'a step of the history around %s(x, %d, ops)%s on a %s tensor raises %s: %s'
+                                      % (c.get('variant', 'cumops'), c['dim'], ag_text(c.get('ag', 'off')), LAYOUTS[c.get('layout', 'C')],
+                                         type(e).__name__, str(e)[:200]))
         return res
 
 
@@ -146,28 +185,41 @@ def plain_exec_(pp, torch, c, history, res):
     variant = c.get('variant', 'cumops')
     inplace = variant.endswith('_')
     layout = c.get('layout', 'C')
+    ag = c.get('ag', 'off')
     ops = seg_ops(torch, order)
     if layout == 'E':
         e = c['edim']
         sh1 = tuple(1 if k == e else s for k, s in enumerate(sh))
-        x1, b1 = seg_tensor(torch, sh1, pdim, left)
+        x, b1 = seg_tensor(torch, sh1, pdim, left)
         base = b1.expand(sh)
-        buf = x1
         vf = lambda b: b.expand(sh + (2,))
-        xin = vf(buf)
     else:
         x, base = seg_tensor(torch, sh, pdim, left)
-        xin, buf, vf = relayout(torch, x, layout)
+    if ag != 'off':
+        x = x.double()                    # the segment ends stay far below 2^53: still exact
+    if layout == 'E':
+        buf = x
+    else:
+        _, buf, vf = relayout(torch, x, layout)
+    buf = ag_buffer(torch, buf, ag)
+    xin = vf(buf)
+    xd, bufd = xin.detach(), buf.detach()      # the same memory, for the writes of the history and the comparisons
     lay = LAYOUTS[layout]
-    x0 = xin.clone()
-    buf0 = buf.clone()
+    x0 = xd.clone()
+    buf0 = bufd.clone()
     fn = getattr(pp, variant)
-    call = '%s(x, %d, ops)' % (variant, dim)
+    call = '%s(x, %d, ops)%s' % (variant, dim, ag_text(ag))
     try:
-        y = fn(xin, dim, ops)
+        yg = fn(xin, dim, ops)
     except Exception as e:
         res['fail'] = (KEY_FOLD, '%s raises %s: %s' % (call, type(e).__name__, str(e)[:200]))
         return res
+    if not torch.is_tensor(yg):
+        res['fail'] = (KEY_FOLD, '%s returns a %s' % (call, type(yg).__name__))
+        return res
+    y = yg.detach()
+    xin = xd
+    buf = bufd
     try:
         devs = deviations(y, base, pdim, left)
     except ShapeError as e:
@@ -191,8 +243,9 @@ def plain_exec_(pp, torch, c, history, res):
         return res
     # ---- histories on the two objects
     ysave = y.clone()
+    xin = vf(ag_buffer(torch, buf0.clone(), ag)) if False else xin
     try:
-        y.copy_(ysave)                    # a fresh tensor can be written to
+        yg.copy_(ysave)                   # a fresh tensor can be written to
     except RuntimeError as e:
         res['fail'] = (KEY_ALIAS, 'y = %s on a %s input: y cannot be written to (%s): the result is not a fresh tensor' % (call, lay, str(e)[:120]))
         return res
